@@ -498,7 +498,7 @@ func txBlock(r *vrt.Run, idx int) {
 		}
 		// ---- exact settlement from the gas-change events ----------------------------------
 		var (
-			pre, refund, leftReturned uint64
+			pre, refund, leftReturned  uint64
 			haveRefundEv, floorApplied bool
 		)
 		for _, g := range ev.gas {
